@@ -35,6 +35,11 @@ class Budget(BaseException):
     """Job ran out of its time / path budget -> inconclusive."""
 
 
+class Truncated(BaseException):
+    """An unwinding bound of the proxies was exceeded on this path (e.g. more separator occurrences than
+    split() unrolls): the path is abandoned and counted; without a violation elsewhere the job is inconclusive."""
+
+
 RE_SORT = z3.ReSort(z3.StringSort())
 ANYCHAR = z3.AllChar(RE_SORT)
 ANYSTR = z3.Full(RE_SORT)
@@ -572,6 +577,8 @@ class Engine:
                     self.path_log.append(dict(outcome=out, pc=list(self.pc), cf_apps=list(self.cf_apps)))
             except EngineAbort:
                 self.stats["pruned"] += 1
+            except Truncated:
+                self.stats["truncated"] = self.stats.get("truncated", 0) + 1
             except Frontier:
                 self.frontier.append([t[0] for t in self.trail])
             self.stats["paths"] += 1
@@ -1280,7 +1287,19 @@ class SymStr:
             out.append(cur)
             return out
         if not isinstance(sep, str) or len(sep) != 1:
-            raise Unsupported("split(sep) with a multi-character or symbolic separator and no maxsplit")
+            # symbolic or multi-character separator: unroll up to SPLIT_UNROLL occurrences
+            out, cur = [], self
+            for _ in range(SPLIT_UNROLL):
+                r = cur._split1(sep, right=False)
+                if r is None:
+                    out.append(cur)
+                    return out
+                out.append(SymStr(r[0]))
+                cur = SymStr(r[1])
+            if E().branch(z3.Contains(cur.e, _s(sep))):
+                raise Truncated("split(): more separator occurrences than the unrolling bound")
+            out.append(cur)
+            return out
         eng = E()
         out, cur = [], []
         for part in flatten(eng.norm(self.e)):
@@ -1292,7 +1311,7 @@ class SymStr:
                     cur = [z3.StringVal(pc_)]
             else:
                 if eng.branch(z3.Contains(part, z3.StringVal(sep))):
-                    raise Unsupported("split: unbounded number of separators in a symbolic part")
+                    raise Truncated("split: a symbolic part may contain any number of separators")
                 cur.append(part)
         out.append(SymStr(cat(cur)))
         return out
@@ -1337,7 +1356,13 @@ class SymStr:
         e = E().norm(self.e)
         if z3.is_string_value(e) and isinstance(old, str) and isinstance(new, str):
             return z3str_to_py(e).replace(old, new, count)
-        raise Unsupported("str.replace (all occurrences) on a symbolic string")
+        if isinstance(old, str) and isinstance(new, str) and count == -1:
+            # all-occurrence replacement by constants: an uninterpreted function per (old, new); only congruence is
+            # used by the solver, the real function on replay
+            f = z3.Function("replace_all_%s_%s" % (old.encode("unicode_escape").hex(), new.encode("unicode_escape").hex()),
+                            z3.StringSort(), z3.StringSort())
+            return SymStr(f(self.e))
+        raise Unsupported("str.replace with symbolic arguments")
 
     def _strip(self, chars, left, right):
         if chars is None:
@@ -1461,6 +1486,7 @@ class SymStripped(SymStr):
         return E().branch(z3.Length(self._e) > 0)
 
 
+SPLIT_UNROLL = 2
 CF = z3.Function("casefold", z3.StringSort(), z3.StringSort())
 UP = z3.Function("upper", z3.StringSort(), z3.StringSort())
 
@@ -1785,12 +1811,40 @@ def sym_isinstance(x, t):
         return False
 
 
-def sym_str(x=""):
-    if isinstance(x, SymStr):
-        return x
-    if hasattr(type(x), "__sym_str__"):
-        return x.__sym_str__()
-    return str(x)
+class _StrType:
+    """Stands for the builtin `str` inside rewritten modules: callable like str(), and `str.method` is an
+    unbound method that dispatches on its first argument (proxy or real string)."""
+
+    def __call__(self, x="", *a, **k):
+        if isinstance(x, SymStr):
+            return x
+        if hasattr(type(x), "__sym_str__"):
+            return x.__sym_str__()
+        return str(x, *a, **k)
+
+    def __getattr__(self, name):
+        if name.startswith("__"):
+            return getattr(str, name)
+
+        def unbound(self_, *a, **k):
+            return getattr(self_, name)(*a, **k)
+        unbound.__name__ = name
+        return unbound
+
+    def __instancecheck__(self, x):
+        return isinstance(x, (str, SymStr))
+
+    def __repr__(self):
+        return "<class 'str'>"
+
+    def __eq__(self, o):
+        return o is self or o is str
+
+    def __hash__(self):
+        return hash(str)
+
+
+sym_str = _StrType()
 
 
 def sym_fmt(*parts):
